@@ -2699,6 +2699,12 @@ func (c *Ctx) modeDecisionsRule(rule string) {
 							_ = al
 							return true, ""
 						}
+						// a byte or flag kept in a record (a tokenised mode change: character, sign)
+						if _, isFA := t.X.(*ssa.FieldAddr); isFA {
+							if b, isB := t.Type().Underlying().(*types.Basic); isB && b.Info()&types.IsString == 0 {
+								return true, ""
+							}
+						}
 					}
 					return false, "depends on " + v.String()
 				case *ssa.Index:
